@@ -137,6 +137,8 @@ def _worker(args):
             executed.append(case)
             if out.discard:
                 res["discards"] += 1
+                for c in out.classes:
+                    res["classes"]["discarded:" + c] = res["classes"].get("discarded:" + c, 0) + 1
                 return
             for c in out.classes:
                 res["classes"][c] = res["classes"].get(c, 0) + 1
